@@ -406,3 +406,9 @@ _add('C16', 'DYNAMIC WORLDS (Props/C16D.lean): the value equations when assets a
 CLAIMED['C03']['text'] = CLAIMED['C03']['text'].replace('Several groups are outside S4:', 'MID-RUN REWIRING (scripts and outside operations) is covered by '
      'no_lost_wakeup_rewire_all_reachable (class S4R; connection_added: a newly connected acceptor gets an attempt queued at that '
      'instant; connection_removed; four checked counterexamples for the excluded rewirings). Several groups and creation are outside S4R:')
+
+CLAIMED['C03']['text'] = CLAIMED['C03']['text'].replace('Several groups and creation are outside S4R:', 'SEVERAL GROUPS (chained, re-entrant, nested; batchers at nesting depth <= 1) are covered by '
+     'no_lost_wakeup5_reachable (scope S5, typed group-path stacks); a batcher at depth 2 loses a wake-up in the model AND in the library '
+     '(nested_batcher_false, known finding F14, printed as KNOWN-FINDING). Scripted rewiring with several groups and creation are outside the scopes:')
+CLAIMED['C03']['note'] = BASE_NOTE + ' Partial: closed-world theorem for scopes S4R (rewiring, one group) and S5 (several groups); scripted rewiring with several groups and creation by probe and correspondence. Known finding F14 (nested groups with batches crossing group boundaries). "run returns": per-scenario watchdog.'
+CLAIMED['C08']['note'] += ' Known finding F14 (nested groups with batches crossing group boundaries: a part leaves the inner group through the outer path) is reported as KNOWN-FINDING.'
